@@ -114,6 +114,11 @@ Proof.
     constructor; [cbn [fst snd]; auto|assumption].
 Qed.
 
+Lemma g_padtb_coords_pad g b co : 0 <= b -> g_padtb_coords g 0 b co = co.
+Proof.
+  intros. unfold g_padtb_coords. replace (0 <? 0) with false by lia. replace (b <? 0) with false by lia. reflexivity.
+Qed.
+
 Lemma g_pad_to_rel c gv cols maxrow :
   vrel (VComp c) gv -> gfin gv = false -> gwidth (gg gv) <= cols -> gheight (gg gv) <= maxrow ->
   exists c2,
@@ -149,7 +154,7 @@ Proof.
     rewrite Forall_forall in Fw. rewrite (Fw _ HR1). lia. }
   destruct (gheight (gg gv) <? maxrow) eqn:E.
   - destruct (comp_pad_trim_top_bottom_rel c1 _ 0 (maxrow - gheight (gg gv)) R1 eq_refl) as (c2 & E2 & R2); [cbn [gg]; lia|].
-    exists c2. split; [exact E2|]. cbn [gg gco] in R2. rewrite translate_coords_0 in R2.
+    exists c2. split; [exact E2|]. cbn [gg gco] in R2. rewrite g_padtb_coords_pad in R2 by lia.
     assert (g_pad_trim_tb g1 0 (maxrow - gheight (gg gv)) = g_pad_to (gg gv) cols maxrow) as Eg.
     { unfold g_pad_trim_tb, g_pad_to. rewrite Ew1, Eh1. replace (Z.max 0 0) with 0 by lia. replace (Z.max 0 (- 0)) with 0 by lia.
       replace (Z.max 0 (- (maxrow - gheight (gg gv)))) with 0 by lia. replace (Z.max 0 (maxrow - gheight (gg gv))) with (maxrow - gheight (gg gv)) by lia.
@@ -291,7 +296,10 @@ Qed.
 Lemma comp_pad_trim_left_right_rel c gv l r :
   vrel (VComp c) gv -> gfin gv = false -> 0 < gwidth (gg gv) + Z.min l 0 + Z.min r 0 ->
   exists c', comp_pad_trim_left_right c l r = Ok c' /\
-             vrel (VComp c') (GV (g_pad_trim_lr (gg gv) l r) (translate_coords (gco gv) l 0) false false).
+             vrel (VComp c') (GV (g_pad_trim_lr (gg gv) l r)
+                                 (if (l <? 0) || (r <? 0)
+                                  then g_drop_cursor (g_pad_trim_lr (gg gv) l r) (translate_coords (gco gv) l 0)
+                                  else translate_coords (gco gv) l 0) false false).
 Proof.
   intros (Hlf & W & C & Eco & Ef) Hf Hd. cbn [cshards ccoords cfin] in *.
   destruct (WF_content_grid _ _ W C) as (G & Eh & Ec). pose proof G as (Gh & Gw & Fw).
@@ -311,8 +319,9 @@ Proof.
   { destruct (content_size _ _ W1 C1) as [L1 _]. destruct (content_size _ _ W C) as [L0 _]. rewrite zlen_map in L1. lia. }
   destruct (pad_part' s1 _ l r (shards_rows (cshards c)) W1 C1 ltac:(lia)) as (s2 & E2 & W2 & C2).
   cbn zeta. cbn zeta in E2. rewrite E2. eexists; split; [reflexivity|]. cbn [vrel cshards ccoords cfin gleaf gg gco gfin].
-  split; [reflexivity|]. split; [assumption|]. split; [|rewrite Eco; auto].
-  rewrite C2. f_equal. unfold g_pad_trim_lr. rewrite map_map. reflexivity.
+  assert (content s2 = Ok (g_pad_trim_lr (gg gv) l r)) as C3.
+  { rewrite C2. f_equal. unfold g_pad_trim_lr. rewrite map_map. reflexivity. }
+  split; [reflexivity|]. split; [assumption|]. split; [exact C3|]. rewrite Eco, (drop_rel _ _ _ W2 C3). auto.
 Qed.
 
 (* ------------------------------------------------------------------ overlay *)
